@@ -5,7 +5,11 @@
    sub-targets; joins a b p = p is a dependency chain starting at a and ending in b or in a sub-target of b;
    redge = dependency between two different rules; wpath / rpath = non-empty dependency paths with their
    0/1 cost (an edge into a hidden sub-target of the same rule is free); dwithin / rwithin = "visible and on a
-   path of cost <= lim" resp. "reported for a target on a reverse path of cost 1..lim" (lim = -1: no limit). *)
+   path of cost <= lim" resp. "reported for a target on a reverse path of cost 1..lim" (lim = -1: no limit).
+   Second half of the file (deepening): unique_cost = no target is reachable from the roots by two dependency paths
+   of different cost (Proof/C23_Exact.v; unique_costb = the executable test of Model/C23.v); reach_path p l c = p is
+   a dependency chain from a queried root to l of 0/1 cost c; deps_roots_g = deps_roots with a ghost call stack and
+   first-reach log (Proof/C23_Indent.v). *)
 From Coq Require Import Permutation Lia.
 From PlzV Require Import Base.Harness Model.C23 Proof.C23_Spec Proof.C23 Proof.C23_Gen.
 From PlzV Require Import Proof.C23_Rev Proof.C23_Exact Proof.C23_Bfs Proof.C23_Indent.
